@@ -41,7 +41,7 @@ func genC06(rt *rapid.T) CaseC06 {
 	}
 	n := rapid.IntRange(1, maxOps).Draw(rt, "nops")
 	for i := 0; i < n; i++ {
-		kinds := []string{"put", "put", "put", "put", "del", "del", "del", "reopen"}
+		kinds := []string{"put", "put", "put", "put", "del", "del", "del", "reopen", "rsync", "rsync", "rreopen"}
 		if c.Writers > 1 {
 			kinds = append(kinds, "sync", "sync", "put-merge-inside", "del-merge-inside")
 		}
@@ -58,7 +58,7 @@ func genC06(rt *rapid.T) CaseC06 {
 			op.Val = rapid.IntRange(0, len(kvVals)-1).Draw(rt, "val")
 			op.Tag = rapid.IntRange(0, 9).Draw(rt, "tag")
 			op.From = rapid.IntRange(0, c.Writers-1).Draw(rt, "from")
-		case "sync":
+		case "sync", "rsync":
 			op.From = rapid.IntRange(0, c.Writers-1).Draw(rt, "from")
 		}
 		c.Ops = append(c.Ops, op)
@@ -121,7 +121,7 @@ func execC06(c CaseC06) *Outcome {
 	o := &Outcome{}
 	world.ResetHooks()
 	no := false
-	cl, err := world.NewCluster(ctx, world.ClusterOpts{N: c.Writers, Type: "keyvalue", Replicate: &no})
+	cl, err := world.NewCluster(ctx, world.ClusterOpts{N: c.Writers + 1, Type: "keyvalue", Replicate: &no}) // the last replica only reads
 	if err != nil {
 		return fail("harness: cluster: %v", err)
 	}
@@ -192,6 +192,27 @@ func execC06(c CaseC06) *Outcome {
 			if parked {
 				o.Labels = append(o.Labels, "merge-inside-write")
 			}
+		case "rsync", "rreopen":
+			// the read-only replica (it never writes): it merges a writer's log, or restarts and rebuilds its view
+			reader := c.Writers
+			if op.Kind == "rsync" {
+				src := op.From % c.Writers
+				if cl.Stores[src].OpLog().Len() == 0 {
+					continue
+				}
+				if err := syncFrom(cl, reader, src); err != nil {
+					if err == world.ErrInconclusive {
+						o.Inconclusive = true
+						return o
+					}
+					return fail("step %d: reader sync <-%d: %v", step, src, err)
+				}
+			} else {
+				if err := cl.ReopenWith(ctx, reader, -1, &orbitdb.CreateDBOptions{Replicate: &no}); err != nil {
+					return fail("step %d: the read-only replica cannot restart and load: %v", step, err)
+				}
+			}
+			o.Labels = append(o.Labels, "reader:"+op.Kind)
 		case "reopen":
 			if err := cl.ReopenWith(ctx, w, -1, &orbitdb.CreateDBOptions{Replicate: &no}); err != nil {
 				return fail("step %d: replica %d cannot restart and load: %v", step, w, err)
@@ -211,7 +232,7 @@ func execC06(c CaseC06) *Outcome {
 			}
 			o.Labels = append(o.Labels, "sync")
 		}
-		if op.Kind != "sync" && op.Kind != "reopen" {
+		if op.Kind != "sync" && op.Kind != "reopen" && op.Kind != "rsync" && op.Kind != "rreopen" {
 			if touched[op.Key] == nil {
 				touched[op.Key] = map[int]bool{}
 			}
